@@ -201,6 +201,14 @@ func (c *Ctx) isRepoPkg(path string) bool {
 }
 
 func (c *Ctx) allowExternalInline(fn *ssa.Function) bool {
+	// small, well-understood standard-library code is executed from its own source (go/ssa of the
+	// installed toolchain) rather than modelled: bytes.Buffer accessors, unicode/utf8 helpers
+	for _, p := range []string{"(*bytes.Buffer).", "bytes.", "unicode/utf8.", "(*strings.Builder)."} {
+		if strings.HasPrefix(fn.String(), p) {
+			c.Assumed["standard-library function executed from source: "+fn.String()] = true
+			return true
+		}
+	}
 	if c.Spec != nil {
 		if v, ok := c.Spec.Opts["inline-external"]; ok {
 			for _, p := range strings.Fields(v) {
@@ -305,8 +313,9 @@ func (c *Ctx) callByContract(st *State, in ssa.Instruction, sp *FuncSpec, key st
 		c.oblige(st, nm, "callee-requires", t, rq.Src, in.Pos())
 		st.assume(t)
 	}
-	// log the call (ghost)
+	// log the call (ghost); the result is filled in below
 	st.CallLog = append(st.CallLog, CallRec{Callee: short, Args: args, Names: names})
+	logIdx := len(st.CallLog) - 1
 	old := st.snapshot()
 	// havoc frame
 	for _, m := range sp.Modifies {
@@ -326,6 +335,7 @@ func (c *Ctx) callByContract(st *State, in ssa.Instruction, sp *FuncSpec, key st
 		}
 		result = tv
 	}
+	st.CallLog[logIdx].Ret = result
 	env2 := &SpecEnv{c: c, st: st, vars: env.vars, old: old, result: result, hasResult: true, pkg: sp.Pkg, sig: sig}
 	for i := 0; i < rs.Len(); i++ {
 		if n := rs.At(i).Name(); n != "" && n != "_" {
@@ -491,6 +501,21 @@ func (c *Ctx) appendOp(st *State, in ssa.Instruction, s SliceV, more Value, st0 
 	}
 	// symbolic append: model as always reallocating into a fresh array (sound for code that only
 	// uses the result; aliasing with spare capacity of the old array is not modelled) unless src is empty
+	// append(s, x) with s at offset 0: the new array is the old one with x stored at index len(s)
+	if s.Heap && !m.Heap && m.Obj != nil && m.CLen == 1 && isNum(s.Off) && s.Off.Val.Sign() == 0 {
+		c.Assumed["append on symbolic slices modelled as reallocating (writes into spare capacity of the old backing array are not tracked)"] = true
+		ref := c.allocRef(st)
+		x := c.mem(st, m.Obj).(*ArrayV).Elems[m.COff]
+		for _, lf := range c.leavesOf(elem) {
+			h := c.heapArr(st, lf)
+			st.Heap[lf.Key] = Store(h, ref, Select(h, s.Ref))
+		}
+		c.heapWrite(st, elem, ref, s.Len, nil, x)
+		newLen := Arith("+", s.Len, c.idx(1))
+		capT := Fresh("append.cap", c.IntSort())
+		st.assume(Cmp(">=", capT, newLen, true))
+		return SliceV{Elem: elem, Heap: true, Ref: ref, Off: c.idx(0), Len: newLen, Cap: capT}
+	}
 	hs := c.toHeapSlice(st, s, elem)
 	hm := c.toHeapSlice(st, m, elem)
 	c.Assumed["append on symbolic slices modelled as reallocating (writes into spare capacity of the old backing array are not tracked)"] = true
